@@ -22,7 +22,7 @@ from symtorch import (S, SB, C, Explorer, PathAbort, Inconclusive, SymTensor, Sy
 from symtorch import core as _core
 
 SEED = int(os.environ.get("VERIF_SEED", "0") or 0)
-REPO = "/repo"
+REPO = os.environ.get("VERIF_REPO") or "/repo"
 
 
 class Skip(BaseException):
